@@ -42,3 +42,12 @@ Definition accept_C12_reaction (c : re_obj * usys) (o : jv * list (jv * jv)) : v
   (jv_eqb (model_write_r r) written
    && forallb (fun io : jv * jv => match model_read_r parent (fst io) with Ok r' => jv_eqb (model_write_r r') (snd io) | Err => false end) variants,
    S (length variants)).
+
+Definition ne_obj := network_obj str.
+Definition model_write_n (n : ne_obj) : jv := write_network str (fun t => t) wr12 n.
+Definition model_read_n (parent : usys) (v : jv) : res ne_obj := read_network str (fun t => Some t) [48%N; 46%N; 48%N] parent v.
+Definition accept_C12_network (c : ne_obj * usys) (o : jv * list (jv * jv)) : verdict :=
+  let '(n, parent) := c in let '(written, variants) := o in
+  (jv_eqb (model_write_n n) written
+   && forallb (fun io : jv * jv => match model_read_n parent (fst io) with Ok n' => jv_eqb (model_write_n n') (snd io) | Err => false end) variants,
+   S (length variants)).
